@@ -284,7 +284,19 @@ fn check_lookup(t: &mut Tally, recorded: &[String], path: &str) {
         for (i, n) in recorded.iter().enumerate() {
             d.insert(Entry::new(n, "/nonexistent", vec![Checksum::new(Digest::SHA1, format!("{:040x}", i))], Some(i as u64)));
         }
-        d.find_entry(PathBuf::from(path)).map(|e| e.filename.to_string_lossy().into_owned()).map_err(|e| matches!(e, DistinfoError::NotFound))
+        let found = d.find_entry(PathBuf::from(path)).map(|e| e.filename.to_string_lossy().into_owned()).map_err(|e| matches!(e, DistinfoError::NotFound));
+        // the verifying entry points must report the same miss
+        if found.is_err() {
+            let all = d.verify_checksums(PathBuf::from(path));
+            let ok = all.len() == 1
+                && matches!(all[0], Err(DistinfoError::NotFound))
+                && matches!(d.verify_size(PathBuf::from(path)), Err(DistinfoError::NotFound))
+                && matches!(d.verify_checksum(PathBuf::from(path), Digest::SHA1), Err(DistinfoError::NotFound));
+            if !ok {
+                return Err(false);
+            }
+        }
+        found
     });
     match (r, &want) {
         (Ok(Ok(got)), Some(w)) if got == *w => {
